@@ -5,4 +5,6 @@ cd "$(dirname "$0")/.." || exit 2
 . scripts/env.sh
 scripts/build.sh || exit 2
 bin/verifsim list >/dev/null || exit 2
+# stub validation: SimStore must agree with real git (ids included)
+bin/verifsim diffstore --n 3 || exit 2
 echo "setup ok"
